@@ -30,8 +30,12 @@ def _load(pid: str) -> Any:
 def _check_plain(mod: Any, case: dict) -> Failure | None:
     """check_case for replay/shrink: exceptions raised by the code under test count as failures."""
     note = Note()
+    limit = int(getattr(mod, "CASE_TIMEOUT_S", 120))
     try:
-        return mod.check_case(case, note)
+        with core.case_alarm(limit):
+            return mod.check_case(case, note)
+    except core.CaseTimeout:
+        return Failure("case-timeout", f"check_case did not finish within {limit}s")
     except HarnessError:
         raise
     except RecursionError as e:
